@@ -43,8 +43,24 @@ def build_req(refc, piv, ident, mid, echo=None):
     return cw.encode(O.protect_request(refc, m, piv), "udp")
 
 
+SRV_PIVS = {}      # id(world) -> Partial IVs the server's sender context put on the wire
+
+
 def deliver(w, data):
-    return w.cmd("deliver %s %s %s" % (PEER, SERVER, data.hex()))
+    evs = w.cmd("deliver %s %s %s" % (PEER, SERVER, data.hex()))
+    for e in evs:
+        if e["e"] == "wire" and e.get("from") == SERVER:
+            try:
+                outer = cw.decode(bytes.fromhex(e["b"]), "udp")
+                ov = [v for n, v in outer["options"] if n == 9]
+                if ov and ov[0]:
+                    piv = O.decode_oscore_option(ov[0], strict=False)["piv"]
+                    if piv:
+                        SRV_PIVS.setdefault(id(w), []).append(
+                            (int.from_bytes(piv, "big"), outer["mid"], outer["type"]))
+            except Exception:
+                pass
+    return evs
 
 
 def run_history(exe, r, c, ops, b12, win, with_forgeries=True):
@@ -65,6 +81,14 @@ def run_history(exe, r, c, ops, b12, win, with_forgeries=True):
             d = build_req(refc, piv0, 4095, mid)
             evs = deliver(w, d)
             mid += 1
+            if r.random() < 0.5:
+                # another request arrives before the Echo exchange is through (pipelined, or an
+                # attacker replaying an old one): it is challenged as well, under a new Partial
+                # IV of the server's sender context; the client goes on with the latest Echo
+                piv0 = 8
+                d = build_req(refc, piv0, 4094, mid)
+                evs = deliver(w, d)
+                mid += 1
             for e in evs:
                 if e["e"] == "wire":
                     try:
@@ -168,6 +192,16 @@ def recipient_case(exe, it, run, stats):
     witness["verdicts"] = verdicts
     world.teardown_check(run, "C15", w, witness)
     cfg = "b12=%s" % ("on" if b12 else "off")
+    # the server's own sender context: no Partial IV twice (retransmissions of one message -
+    # same message id - aside)
+    sp = sorted(set(SRV_PIVS.pop(id(w), [])))
+    stats["server_pivs"] = stats.get("server_pivs", 0) + len(sp)
+    vals = [p for p, _, _ in sp]
+    if len(set(vals)) != len(vals):
+        dup = sorted(p for p in set(vals) if vals.count(p) > 1)
+        run.violation("sender-partial-iv-reused/server-responses/%s" % cfg, witness,
+                      "the server protected distinct messages under Partial IV(s) %r: (piv, mid, "
+                      "type) %r" % (dup, sp))
     for ident, n in runs.items():
         stats["genuine"] += 1
         if n > 1:
@@ -197,6 +231,7 @@ def recipient_case(exe, it, run, stats):
         r2 = common.rng("c15w-%d" % it)
         runs2, verdicts2, w2, peek2 = run_history(exe, r2, c, ops, b12, win, False)
         w2.close()
+        SRV_PIVS.pop(id(w2), None)
         g1 = [(v[0], v[1], v[2], v[3]) for v in verdicts if v[0] != "forge"]
         g2 = [(v[0], v[1], v[2], v[3]) for v in verdicts2 if v[0] != "forge"]
         stats["differential_pairs"] += 1
@@ -328,4 +363,5 @@ def main(tier):
     run.require("genuine_messages", stats.get("genuine", 0), 1000)
     run.require("forgeries", stats.get("forgeries", 0), 300)
     run.require("sender_pivs", stats.get("pivs", 0), 300)
+    run.require("server_pivs", stats.get("server_pivs", 0), 50)
     return run.finish()
